@@ -413,17 +413,46 @@ def tv_strings(v, out):
             out.append(key); tv_strings(x, out)
 
 
+def val_keys(v, out):
+    """every string used as a KEY inside a value: map keys (any key type that renders as a string) and the table keys of
+    an untyped toml::Value; string VALUES are not collected"""
+    k = v[0]
+    if k in ("O", "W"):
+        val_keys(v[1], out)
+    elif k in ("L", "R"):
+        for x in v[1]:
+            val_keys(x, out)
+    elif k == "M":
+        for a, b in v[1]:
+            val_strings(a, out); val_keys(b, out)
+    elif k == "E":
+        val_keys(v[2], out)
+    elif k == "V":
+        tv_keys(v[1], out)
+
+
+def tv_keys(v, out):
+    if v[0] == "L":
+        for x in v[1]:
+            tv_keys(x, out)
+    elif v[0] == "T":
+        for key, x in v[1]:
+            out.append(key); tv_keys(x, out)
+
+
 def mentions_private(ty=None, v=None, text=None):
-    """the classifier of the known class `private-datetime-key` (F14): a field / variant / key /
-    string of the case spells one of the private in-band names of the serde tunnels"""
+    """the classifier of the known class `private-datetime-key` (F14, in-band signalling of the serde tunnels): a type /
+    field / variant NAME or a map / table KEY of the case IS one of the private in-band names (exact equality; a string
+    VALUE that merely spells such a name does not count, nor does a longer name containing one), or the document text
+    given with the case contains one"""
     names = []
     if ty is not None:
         ty_names(ty, names)
     if v is not None:
-        val_strings(v, names)
-    if text is not None:
-        names.append(text)
-    return any(p in n for n in names for p in PRIVATE_NAMES)
+        val_keys(v, names)
+    if any(n in PRIVATE_NAMES for n in names):
+        return True
+    return text is not None and any(p in text for p in PRIVATE_NAMES)
 
 
 def excluded_type(t):
@@ -895,7 +924,11 @@ F64_EDGES = [0x0000000000000000, 0x8000000000000000, 0x7ff0000000000000, 0xfff00
              0x7fefffffffffffff, 0x0010000000000000, 0x3fb999999999999a, 0x4340000000000000, 0x4341c37937e08000,
              0x3e7ad7f29abcaf48, 0x433fffffffffffff, 0xc3e0000000000000, 0x43e0000000000000, 0x3ff8000000000000]
 F32_EDGES = [0x00000000, 0x80000000, 0x7f800000, 0xff800000, 0x7fc00000, 0xffc00000, 0x7f800001, 0x3f800000, 0x00000001,
-             0x7f7fffff, 0x00800000, 0x3dcccccd, 0x4b800000, 0x3fc00000]
+             0x7f7fffff, 0x00800000, 0x3dcccccd, 0x4b800000, 0x3fc00000,
+             # 7.038531e-26 and its neighbours: the one f32 magnitude whose SHORTEST decimal digits, read as f64 and narrowed,
+             # round to the next f32 (exhaustive 2^32 scan, repo fix 11c4ed2): any widening of an f32 that goes through
+             # decimal text instead of `as f64` shows here and nowhere else
+             0x15ae43fd, 0x95ae43fd, 0x15ae43fc, 0x15ae43fe]
 
 
 class SerdeGen:
